@@ -323,6 +323,8 @@ class Gen:
         syms = []
         while len(syms) < n:
             s = r.choice(IDENT1) + "".join(r.choice(IDENT) for _ in range(r.randrange(0, 4)))
+            if syms and r.random() < 0.2:
+                s = r.choice(syms).swapcase()          # symbols differing only in letter case are distinct
             if s not in syms:
                 syms.append(s)
         node = {"type": "enum", **attrs, "symbols": syms}
